@@ -88,6 +88,7 @@ class C02(Property):
             d["bg"] = rng.choice([None, (0, 0, 0), (255, 255, 255), (16, 32, 48)])
             d["kitty_term"] = rng.random() < 0.4
             d["split"] = rng.random() < 0.3
+            d["prerender"] = rng.random() < 0.3
             if rng.random() < 0.25:
                 # pixels whose colour equals the terminal background, alpha crossing the threshold:
                 # the only way a transparency change happens without a colour change
@@ -134,6 +135,9 @@ class C02(Property):
             cap["mode"], cap["rgb"], cap["a"] = r[0].mode, r[1], r[2]
             return r
 
+        if d.get("prerender"):
+            # the same instance rendered before with the same settings: nothing may carry over
+            im._renderer(im._render_image, d["alpha"], split_cells=d["split"])
         im._get_render_data = spy
         out = im._renderer(im._render_image, d["alpha"], split_cells=d["split"])
         w, h = im.rendered_size
